@@ -25,6 +25,7 @@ int env_wait_calls;
 unsigned char *env_console_out;
 size_t env_console_out_len;
 int env_console_capture;
+int env_isatty_value;              /* what isatty() answers to driver objects (default 0 = pipe) */
 
 int (*env_wait_hook) (io_event_t *ev, int max, struct timeval *tmo);
 long (*env_recv_hook) (env_cli *c, size_t avail, size_t want);
@@ -83,6 +84,13 @@ int env_ev_console (io_event_t *ev, int n) {
   ev[n].fd = -1; ev[n].completion_key = CONSOLE_COMPLETION_KEY; ev[n].event_type = EVENT_READ;
   return n + 1;
 }
+/* what async_runtime_wait() of lib/async/async_runtime_epoll.c reports when the heart-beat timer thread called
+ * async_runtime_wakeup(): the eventfd value 1 decodes to completion_key 0, data 1, no context */
+int env_ev_wakeup (io_event_t *ev, int n) {
+  memset (&ev[n], 0, sizeof ev[n]);
+  ev[n].fd = -1; ev[n].completion_key = 0; ev[n].event_type = EVENT_READ; ev[n].bytes_transferred = 1;
+  return n + 1;
+}
 void env_tick (int seconds) { hx_clock += seconds; heart_beat_flag = 1; }
 void env_shutdown (void) { g_proceeding_shutdown = 1; }
 void env_console_line (const char *line) {
@@ -119,7 +127,9 @@ int async_runtime_wait (async_runtime_t *rt, io_event_t *events, int max_events,
   env_shutdown ();
   return 0;
 }
-int async_runtime_post_completion (async_runtime_t *rt, uintptr_t key, uintptr_t data) { (void) rt; (void) key; (void) data; return 0; }
+int env_posted_completions;       /* completions posted by the driver itself (async_runtime_post_completion); the harness decides when they are delivered */
+uintptr_t env_posted_key;
+int async_runtime_post_completion (async_runtime_t *rt, uintptr_t key, uintptr_t data) { (void) rt; (void) data; env_posted_completions++; env_posted_key = key; return 0; }
 int async_runtime_post_read (async_runtime_t *rt, socket_fd_t fd, void *buffer, size_t len) { (void) rt; (void) fd; (void) buffer; (void) len; return 0; }
 int async_runtime_post_write (async_runtime_t *rt, socket_fd_t fd, void *buffer, size_t len) { (void) rt; (void) fd; (void) buffer; (void) len; return 0; }
 int async_runtime_add_console (async_runtime_t *rt, void *context) { (void) context; rt->ctype = CONSOLE_TYPE_PIPE; return 0; }
@@ -220,6 +230,6 @@ ssize_t __wrap_write (int fd, const void *buf, size_t n) {
   }
   return __real_write (fd, buf, n);
 }
-int __wrap_isatty (int fd) { (void) fd; return 0; }
+int __wrap_isatty (int fd) { (void) fd; return env_isatty_value; }
 int __wrap_tcgetattr (int fd, struct termios *t) { (void) fd; memset (t, 0, sizeof *t); return 0; }
 int __wrap_tcsetattr (int fd, int a, const struct termios *t) { (void) fd; (void) a; (void) t; return 0; }
